@@ -542,6 +542,10 @@ fn s_special(r: &mut Rng) -> Inst {
     }
     let mut exprs = vec![gen_exp::exp(r, &cfg, 3), mul(k(special(r)), v(&vars[0])), div(v(&vars[0]), k(special(r)))];
     exprs.push(abs(v(&vars[0])));
+    // inf - inf inside interval sums: the NaN repair of lower_sum / upper_sum
+    exprs.push(add(v(&vars[0]), k(*r.pick(&[INF, -INF]))));
+    exprs.push(sub(k(*r.pick(&[INF, -INF])), pv(r, &vars)));
+    exprs.push(add(mul(k(1e300), mul(k(1e300), v(&vars[0]))), mul(k(-1e300), mul(k(1e300), pv(r, &vars)))));
     Inst { domain, constraints: cs, exprs, tags: vec!["special".into()] }
 }
 
@@ -611,6 +615,17 @@ fn fixed() -> Vec<Inst> {
         // 1.9 * (1/1.9)
         Inst { domain: d(vec![("n", VariableType::IntegerRange(0, 10))]), constraints: vec![row(mul(k(1.9), v("n")), ge, k(1.9 * 3.0), 0), row(mul(k(1.9), v("n")), le, k(1.9 * 5.0), 1)],
                exprs: vec![], tags: t("one-point-nine") },
+        // known finding C07-divby-reciprocal-overflow, replayed on every run as a liveness test of the pipeline
+        Inst { domain: d(vec![("x", VariableType::NonNegativeReal(0.0, INF))]), constraints: vec![row(v("x"), ge, k(0.0), 0)],
+               exprs: vec![div(v("x"), k(1e-310))], tags: t("divby-subnormal") },
+        // known finding C07-affine-coefficient-overflow (two liveness cases)
+        Inst { domain: d(vec![("x", real(-INF, INF))]), constraints: vec![row(div(v("x"), k(5e-324)), Comparison::Less, k(0.0), 0)],
+               exprs: vec![], tags: t("coefficient-overflow-reciprocal") },
+        Inst { domain: d(vec![("x", real(-INF, INF))]), constraints: vec![row(mul(k(1e300), mul(k(1e300), v("x"))), ge, k(-5.0), 0)],
+               exprs: vec![], tags: t("coefficient-overflow-product") },
+        // inf - inf in interval sums (NaN repair)
+        Inst { domain: d(vec![("x", real(-INF, INF)), ("y", real(0.0, INF))]), constraints: vec![row(sub(v("x"), v("y")), le, k(INF), 0)],
+               exprs: vec![add(v("x"), k(INF)), sub(v("y"), v("y")), sub(k(-INF), v("x")), add(v("x"), v("y"))], tags: t("inf-minus-inf") },
         // saturating cast
         Inst { domain: d(vec![("n", VariableType::IntegerRange(i32::MIN, i32::MAX))]), constraints: vec![row(mul(k(0.5), v("n")), le, k(1e12), 0)], exprs: vec![mul(k(4.0), v("n"))], tags: t("i32-limits") },
     ]
